@@ -3,7 +3,7 @@ PROP = {'engine': 'stack',
  'test': 'TestC10',
  'level': 'exploration',
  'quick': {'checks': 120, 'shards': 12, 'timeout': 900},
- 'thorough': {'checks': 1500, 'shards': 14, 'timeout': 3000},
+ 'thorough': {'checks': 4000, 'shards': 14, 'timeout': 3400},
  'rule': 'rapid draws the phase in which the first invocation lingers - initialisation (explicit, or started lazily by the first caller itself as in '
          'the real binary, then optionally ordered by the pause point frontend.lazyInit), runtime working, response sent while an INVOKE-subscribed '
          'extension finishes, timeout reset in progress, the reset that follows a Runtime.ExitError dragged out by an extension (`failreset`), the '
